@@ -1,20 +1,21 @@
 /-
-  C41 — property theorems over XC.Model.C41.
+  C41 — property theorems over XC.Model.C41 (the code AFTER fix 03f8929, "ssh: reject certificates that
+  are not canonically encoded").
 
   Statement (properties.jsonl): CheckCert/Authenticate/CheckHostKey accept iff right type, accepted
   authority, matching principal (or none listed), ValidAfter ≤ now < ValidBefore (infinity allowed),
   only supported critical options, not revoked, and the CA signature verifies over exactly the
   certificate bytes that were received; SignCert / ssh-keygen -s certificates round-trip byte for byte.
 
-  What is proved here
-  * `checkCert_iff`, `timeGo_iff`, `authenticate_iff`, `checkHostKey_iff`: the decision of the code as
-    written, with the time rule shown equal to the intended one for ALL uint64 values and all clocks;
-  * `checkCert_eq_recv_of_canonical`: on a certificate whose received bytes are their own re-marshal,
-    the code's check (signature over the re-marshal) IS the property's check (signature over the
-    received bytes);
-  * `reencoding_accepted`, `parse_not_injective`, `parse_marshal_not_canonical`: the NEGATION for
-    arbitrary received bytes, with a concrete witness: two different byte strings parse to the same
-    certificate, so a certificate whose received bytes were never signed is accepted (DESIGN §6 F4).
+  * `checkCert_iff`, `timeGo_iff`, `authenticate_iff`, `checkHostKey_iff`: the decision of the code, the
+    time rule equal to the intended one for ALL uint64 values and all clocks;
+  * `parse_marshal_canonical`: whatever ParsePublicKey accepts as a certificate equals its own Marshal()
+    (proved from parseCert's final check); hence `checkCert_over_received_bytes` / `C41_full_holds`:
+    the signature check of CheckCert is over exactly the received bytes, for EVERY accepted blob;
+  * `marshal_parse` (XC/Proofs/C41.lean): ParsePublicKey(Marshal c) = c for every well-formed c;
+  * what the check excludes, stated about the pre-fix parser `parseCertKeyNoCheck`:
+    `nocheck_not_injective`, `nocheck_reencoding_accepted` (the former defect F4) and
+    `noncanonical_rejected` (the same witness is now a parse error).
 -/
 import XC.Model.C41
 import XC.Proofs.C41
@@ -102,11 +103,10 @@ theorem checkCert_iff (verify : PubKey → Bytes → Sig → Bool) (ck : Checker
 example : ∃ (c : Cert), checkCert (fun _ _ _ => true) ⟨[], none, 5⟩ [] c = .accept :=
   ⟨⟨[], .ed25519 [], 0, 1, [], [], 0, certTimeInfinity, [], [], [], .ed25519 [], some ⟨[], [], []⟩⟩, by decide⟩
 
-/-- a nil `*Signature` or an unknown key type panics instead of being decided: never reached from
-    `ParsePublicKey` output (see `parseCert_sig_some`) -/
-theorem parseCert_sig_some (o : PtOracle) (algo b : Bytes) (c : Cert) (h : parseCert o algo b = some c) :
+/-- a nil `*Signature` panics instead of being decided: never reached from `ParsePublicKey` output -/
+theorem parseCertNoCheck_sig_some (o : PtOracle) (algo b : Bytes) (c : Cert) (h : parseCertNoCheck o algo b = some c) :
     c.sig ≠ none := by
-  unfold parseCert at h
+  unfold parseCertNoCheck at h
   repeat (split at h; (· cases h))
   simp only [Option.some.injEq] at h
   subst h
@@ -179,7 +179,7 @@ theorem checkCert_eq_recv_of_canonical (verify : PubKey → Bytes → Sig → Bo
   unfold checkCert checkCertRecv
   rw [recvSigned_of_canonical c b s hs hm, hs]
 
-/-! ## the negation: parse is not injective, so unsigned received bytes are accepted -/
+/-! ## witnesses: what the canonical-encoding check excludes -/
 
 def zeros32 : Bytes := List.replicate 32 0
 
@@ -194,45 +194,31 @@ def wCanon : Bytes := (wCert.marshal).getD []
 /-- the same certificate with the extension's data field written as `00 00 00 04 00 00 00 00`
     (a data field holding an inner empty string) instead of `00 00 00 00` -/
 def wRecv : Bytes :=
-  wCert.signedPart certAlgoED25519 |>.take 0 |>.append
-    (putString certAlgoED25519 ++ putString wCert.nonce ++ wCert.key.body ++
-     putU64 0 ++ putU32 1 ++ putString [] ++ putString [] ++ putU64 0 ++ putU64 certTimeInfinity ++
-     putString [] ++ putString (putString [97] ++ putString (putString [])) ++ putString [] ++
-     putString wCert.sigKey.marshal ++ putString (putSig ⟨algoED25519, [], []⟩))
+  putString certAlgoED25519 ++ putString wCert.nonce ++ wCert.key.body ++
+   putU64 0 ++ putU32 1 ++ putString [] ++ putString [] ++ putU64 0 ++ putU64 certTimeInfinity ++
+   putString [] ++ putString (putString [97] ++ putString (putString [])) ++ putString [] ++
+   putString wCert.sigKey.marshal ++ putString (putSig ⟨algoED25519, [], []⟩)
 
 def noPts : PtOracle := fun _ _ => false
 
-/-- both byte strings are accepted by the parser, they differ, and they yield the same certificate -/
-theorem parse_not_injective :
-    wRecv ≠ wCanon ∧ parseCertKey noPts wRecv = some wCert ∧ parseCertKey noPts wCanon = some wCert := by
+/-- the field parser alone is not injective: two different byte strings, the same certificate -/
+theorem nocheck_not_injective :
+    wRecv ≠ wCanon ∧ parseCertKeyNoCheck noPts wRecv = some wCert ∧ parseCertKeyNoCheck noPts wCanon = some wCert := by
   decide +kernel
 
-/-- `parseCert b = some c → Marshal c = b` is false -/
-theorem parse_marshal_not_canonical :
-    ¬ (∀ (o : PtOracle) (b : Bytes) (c : Cert), parseCertKey o b = some c → c.marshal = some b) := by
-  intro h
-  have h1 := h noPts wRecv wCert parse_not_injective.2.1
-  have h2 : wCert.marshal = some wCanon := by decide +kernel
-  rw [h2, Option.some.injEq] at h1
-  exact parse_not_injective.1 h1.symm
-
-/-- A CA that signed exactly the canonical bytes (and nothing else): the code accepts the
-    certificate received as `wRecv`, although the CA signature does not verify over the received
-    signed bytes — the clause "verifies over exactly the certificate bytes that were received" fails. -/
-theorem reencoding_accepted :
+/-- without the check (the code before 03f8929) a certificate whose received bytes were never signed
+    was accepted: the CA signed `wCanon`, the peer sent `wRecv` -/
+theorem nocheck_reencoding_accepted :
     let verify : PubKey → Bytes → Sig → Bool := fun _ msg _ => msg = recvSigned wCanon wCert
     let ck : Checker := ⟨[], none, 0⟩
-    parseCertKey noPts wRecv = some wCert ∧
+    parseCertKeyNoCheck noPts wRecv = some wCert ∧
     checkCert verify ck [] wCert = .accept ∧
     checkCertRecv verify ck [] wCert (recvSigned wRecv wCert) = .reject := by
   decide +kernel
 
-/-- and the converse: a CA signature over the received (non-canonical) bytes is rejected -/
-theorem received_signature_rejected :
-    let verify : PubKey → Bytes → Sig → Bool := fun _ msg _ => msg = recvSigned wRecv wCert
-    let ck : Checker := ⟨[], none, 0⟩
-    checkCert verify ck [] wCert = .reject ∧
-    checkCertRecv verify ck [] wCert (recvSigned wRecv wCert) = .accept := by
+/-- with the check the non-canonical encoding is a parse error, the canonical one still parses -/
+theorem noncanonical_rejected :
+    parsePublicKey noPts wRecv = none ∧ parsePublicKey noPts wCanon = some (.cert wCert) := by
   decide +kernel
 
 /-- non-vacuity of `marshal_parse` (XC/Proofs/C41.lean): the witness certificate is well-formed, and the
@@ -248,20 +234,193 @@ example : parsePublicKey noPts wCanon = some (.cert wCert) := by
       | (intro kv hkv; simp only [wCert, List.mem_singleton] at hkv; subst hkv; exact ⟨by decide, by decide⟩)
   exact marshal_parse noPts wCert _ hw wCanon (by decide +kernel)
 
-/-- The full property as stated: for every received blob that parses, the decision is the one
-    over the received bytes.  It does NOT hold of the code (`reencoding_accepted`); it holds on
-    canonical blobs (`checkCert_eq_recv_of_canonical`). -/
+/-! ## the canonical-encoding check of parseCert (fix 03f8929) -/
+
+theorem parseCert_unfold (o : PtOracle) (a b : Bytes) (c : Cert) (h : parseCert o a b = some c) :
+    parseCertNoCheck o a b = some c ∧ ∃ m t, c.marshal = some m ∧ parseString m = some (t, b) := by
+  unfold parseCert at h
+  cases h1 : parseCertNoCheck o a b with
+  | none => rw [h1] at h; cases h
+  | some c' =>
+    rw [h1] at h
+    simp only at h
+    cases h2 : c'.marshal with
+    | none => rw [h2] at h; cases h
+    | some m =>
+      rw [h2] at h
+      simp only at h
+      cases h3 : parseString m with
+      | none => rw [h3] at h; cases h
+      | some p =>
+        obtain ⟨t, body⟩ := p
+        rw [h3] at h
+        simp only at h
+        by_cases hb : body = b
+        · rw [if_pos hb] at h
+          simp only [Option.some.injEq] at h
+          subst h; subst hb
+          exact ⟨rfl, m, t, h2, h3⟩
+        · rw [if_neg hb] at h; cases h
+
+theorem parseCertNoCheck_key_type (o : PtOracle) (a b : Bytes) (c : Cert) (h : parseCertNoCheck o a b = some c) :
+    c.key.type = a := by
+  unfold parseCertNoCheck at h
+  split at h
+  · cases h
+  · split at h
+    · cases h
+    · rename_i hk
+      have ht := parsePlain_type _ _ _ _ _ hk
+      repeat (split at h; (· cases h))
+      simp only [Option.some.injEq] at h
+      subst h
+      exact ht
+
+/-- the certificate-name table is a bijection on the eight certificate arms of parsePubKey -/
+theorem arms_table : certArms.all (fun algo =>
+    match certKeyAlgoNames.find? (fun p => p.1 = algo) with
+    | some p => ((certKeyAlgoNames.find? (fun q => q.2 = p.2)).map (·.1) == some algo) && decide (algo.length < 4294967296)
+    | none => false) = true := by decide +kernel
+
+/-- **parse_marshal_canonical**: whatever ParsePublicKey accepts as a certificate is its own
+    marshalling — the received bytes ARE `Marshal()` of the parsed value -/
+theorem parse_marshal_canonical (o : PtOracle) (b : Bytes) (c : Cert) (h : parseCertKey o b = some c) :
+    c.marshal = some b := by
+  unfold parseCertKey at h
+  cases h1 : parseString b with
+  | none => rw [h1] at h; cases h
+  | some pr =>
+    obtain ⟨algo, r⟩ := pr
+    rw [h1] at h
+    simp only at h
+    by_cases harm : certArms.contains algo = true
+    · rw [if_pos harm] at h
+      cases h2 : certKeyAlgoNames.find? (fun p => p.1 = algo) with
+      | none => rw [h2] at h; cases h
+      | some p =>
+        rw [h2] at h
+        simp only at h
+        obtain ⟨hnc, m, t, hm, hpm⟩ := parseCert_unfold o p.2 r c h
+        have hkt := parseCertNoCheck_key_type o p.2 r c hnc
+        have htab := List.all_eq_true.mp arms_table algo (by simpa using harm)
+        rw [h2] at htab
+        simp only [Bool.and_eq_true, beq_iff_eq, decide_eq_true_eq] at htab
+        obtain ⟨hinv, hlen⟩ := htab
+        -- Marshal(c) starts with the name `algo`
+        have hct : certTypeOf c.key = some algo := by
+          unfold certTypeOf; rw [hkt]; exact hinv
+        unfold Cert.marshal at hm
+        rw [hct] at hm
+        simp only [Option.some.injEq] at hm
+        obtain ⟨eb, _⟩ := parseString_inv h1
+        -- m = putString algo ++ rest, and parseString m = (t, r)
+        rw [← hm] at hpm
+        simp only [Cert.signedPart, List.append_assoc] at hpm
+        rw [parseString_putString _ hlen] at hpm
+        simp only [Option.some.injEq, Prod.mk.injEq] at hpm
+        unfold Cert.marshal
+        rw [hct]
+        simp only [Option.some.injEq]
+        rw [eb, ← hpm.2]
+        simp only [Cert.signedPart, List.append_assoc]
+    · rw [if_neg harm] at h; cases h
+
+
+theorem parseCert_sig_some (o : PtOracle) (algo b : Bytes) (c : Cert) (h : parseCert o algo b = some c) :
+    c.sig ≠ none :=
+  parseCertNoCheck_sig_some o algo b c (parseCert_unfold o algo b c h).1
+
+theorem parseCertKey_sig_some (o : PtOracle) (b : Bytes) (c : Cert) (h : parseCertKey o b = some c) :
+    c.sig ≠ none := by
+  unfold parseCertKey at h
+  repeat (split at h; (· cases h))
+  split at h
+  · split at h
+    · cases h
+    · exact parseCert_sig_some _ _ _ _ h
+  · cases h
+
+/-- **checkCert_over_received_bytes**: for every blob ParsePublicKey accepts, CheckCert's decision is
+    the decision with the CA signature verified over exactly the received signed bytes -/
+theorem checkCert_over_received_bytes (o : PtOracle) (verify : PubKey → Bytes → Sig → Bool) (ck : Checker)
+    (p b : Bytes) (c : Cert) (h : parseCertKey o b = some c) :
+    checkCert verify ck p c = checkCertRecv verify ck p c (recvSigned b c) := by
+  have hm := parse_marshal_canonical o b c h
+  cases hs : c.sig with
+  | none => exact absurd hs (parseCertKey_sig_some o b c h)
+  | some s => exact checkCert_eq_recv_of_canonical verify ck p c b s hs hm
+
+/-- The full property clause as stated: for every received blob that parses, the decision is the one
+    over the received bytes. -/
 def C41_full : Prop :=
   ∀ (o : PtOracle) (verify : PubKey → Bytes → Sig → Bool) (ck : Checker) (p b : Bytes) (c : Cert),
     parseCertKey o b = some c → checkCert verify ck p c = checkCertRecv verify ck p c (recvSigned b c)
 
-theorem C41_full_fails : ¬ C41_full := by
-  intro h
-  have := h noPts (fun _ msg _ => msg = recvSigned wCanon wCert) ⟨[], none, 0⟩ [] wRecv wCert
-    parse_not_injective.2.1
-  have w := reencoding_accepted
-  simp only at w
-  rw [w.2.1, w.2.2] at this
-  exact absurd this (by decide)
+theorem C41_full_holds : C41_full := checkCert_over_received_bytes
+
+/-- accept ⇔ the listed rules ∧ the CA signature verifies over the received signed bytes -/
+theorem checkCert_received_iff (o : PtOracle) (verify : PubKey → Bytes → Sig → Bool) (ck : Checker)
+    (p b : Bytes) (c : Cert) (h : parseCertKey o b = some c) :
+    checkCert verify ck p c = .accept ↔
+      ck.revoked c = false ∧
+      (∀ kv ∈ c.critOpts, kv.1 = sourceAddress ∨ kv.1 ∈ ck.supported) ∧
+      (c.principals = [] ∨ p ∈ c.principals) ∧
+      timeGo ck.now c.validAfter c.validBefore = true ∧
+      ∃ s, c.sig = some s ∧ verify c.sigKey (recvSigned b c) s = true := by
+  rw [checkCert_iff]
+  have hm := parse_marshal_canonical o b c h
+  constructor
+  · rintro ⟨h1, h2, h3, h4, msg, s, hb, hs, hv⟩
+    have := recvSigned_of_canonical c b s hs hm
+    rw [this] at hb
+    simp only [Option.some.injEq] at hb
+    exact ⟨h1, h2, h3, h4, s, hs, by rw [hb]; exact hv⟩
+  · rintro ⟨h1, h2, h3, h4, s, hs, hv⟩
+    exact ⟨h1, h2, h3, h4, _, s, recvSigned_of_canonical c b s hs hm, hs, hv⟩
+
+/-! ## no panic inside the check -/
+
+def plainAlgos : List Bytes :=
+  [algoRSA, algoDSA, algoECDSA256, algoECDSA384, algoECDSA521, algoSKECDSA, algoED25519, algoSKED25519]
+
+theorem parsePlain_algo_mem (o : PtOracle) (algo b : Bytes) (x : PubKey × Bytes)
+    (h : parsePlain o algo b = some x) : algo ∈ plainAlgos := by
+  unfold parsePlain at h
+  unfold plainAlgos
+  split at h
+  · rename_i ha; simp [ha]
+  · split at h
+    · rename_i ha; simp [ha]
+    · split at h
+      · rename_i ha; rcases ha with ha | ha | ha <;> simp [ha]
+      · split at h
+        · rename_i ha; simp [ha]
+        · split at h
+          · rename_i ha; simp [ha]
+          · split at h
+            · rename_i ha; simp [ha]
+            · cases h
+
+theorem plainAlgos_have_cert_type : plainAlgos.all (fun a =>
+    ((certKeyAlgoNames.find? (fun q => q.2 = a)).map (·.1)).isSome) = true := by decide +kernel
+
+/-- the `c.Marshal()` inside parseCert's canonical-encoding check never panics: every key the field
+    parser returns has a certificate type -/
+theorem parseCertNoCheck_marshal_some (o : PtOracle) (a b : Bytes) (c : Cert)
+    (h : parseCertNoCheck o a b = some c) : c.marshal ≠ none := by
+  have hkt := parseCertNoCheck_key_type o a b c h
+  have hmem : a ∈ plainAlgos := by
+    unfold parseCertNoCheck at h
+    split at h
+    · cases h
+    · split at h
+      · cases h
+      · rename_i hk; exact parsePlain_algo_mem _ _ _ _ hk
+  have := List.all_eq_true.mp plainAlgos_have_cert_type a hmem
+  unfold Cert.marshal certTypeOf
+  rw [hkt]
+  cases hf : (certKeyAlgoNames.find? (fun q => q.2 = a)).map (·.1) with
+  | none => rw [hf] at this; cases this
+  | some t => simp
 
 end XC.C41
